@@ -193,6 +193,10 @@ class Parser:
         self._op_code.
         """
         if action_token is TokenTypes.STAGE:
+            if self._current_token.is_a(TokenTypes.BEGIN):
+                # A block belongs to "set <light>", not to a stage.
+                return self.token_error(
+                    'Expected row or column after "stage", got "{}".')
             if not MatrixParser(self).operand_list():
                 return False
             self._add_instruction(OpCode.COLOR)
